@@ -18,8 +18,9 @@ ASSUMPTIONS = [
     "rule equivalence: bijective isomorphism (ref_match) on element, charge and the (before, after) order pair",
 ]
 RULE = {
-    "quick": "every molecule (about 600) under 3 re-rootings: SMILES->graph->SMILES, explicit<->implicit hydrogen round trip, hydrogen totals; every corpus reaction under its renumbering variants: "
-    "centre ITS->GML->ITS for every flag combination, and the three documented routes to a GML rule (reaction string / full ITS / centre ITS), core and full; non-trivial = molecule has hydrogens, resp. centre non-empty",
+    "quick": "every molecule (about 600) under 3 re-rootings: SMILES->graph->SMILES, explicit<->implicit hydrogen round trip, hydrogen totals, partially explicit writings (one hydrogen of an atom as an atom, the rest as a count); "
+    "every corpus reaction, 8 hand-written ionic reactions (charges -2..+3, spectator ions) and the 29 hand-written explicit-hydrogen reactions (each also with a spectator Na+) under their renumbering variants: "
+    "centre ITS->GML->ITS for every flag combination, the explicit-hydrogen export (heavy-atom part must read back as the rule), and the three documented routes to a GML rule (reaction string / full ITS / centre ITS), core and full; non-trivial = molecule has hydrogens, resp. centre non-empty",
     "thorough": "all re-rootings of every molecule; all variants of the reactions",
 }
 
